@@ -89,6 +89,7 @@ func init() {
 			}
 			out = append(out, seq...)
 			out = append(out, Instance{Scenario: "c02_sessions", Params: mustJSON(SessionsParams{}), Bound: 0, Shards: 2, Note: "saves in the sessions after real rebalances that grow / shift the assignment: what is acknowledged on a newly acquired vBucket is stored by the next save (checked by the next session's stream request)"})
+			out = append(out, Instance{Scenario: "c05_grow", Params: mustJSON(struct{}{}), Bound: 0, Note: "a rebalance that enlarges the range: what is acknowledged on the acquired vBuckets survives the last tick of the previous session's schedule and is stored"})
 			out = append(out, Instance{Scenario: "c05_rebalance_paths", Params: mustJSON(struct{}{}), Bound: 0, Note: "the save that precedes the close of a rebalance, for every way a rebalance is requested (bus, PUT /membership/info, GET /rebalance)"})
 			out = append(out, Instance{Scenario: "c05_finite_close", Params: mustJSON(struct{}{}), Bound: 0, Note: "the closing save when the client stops on its own (finite mode, every stream ended): what was acknowledged is stored when Start() has returned"})
 			out = append(out, Instance{Scenario: "c05_slowstore", Params: mustJSON(struct{}{}), Bound: 0, Note: "a custom backend whose Save() is slower than checkpoint.timeout while a second save is requested: the newer position wins"})
@@ -624,6 +625,58 @@ func init() {
 			for vb := uint16(0); vb < 2; vb++ {
 				if st, _ := e.StoredSeq(vb); st != 3 {
 					vrt.Failf("%s: after the re-open the store holds %d for vb%d", desc, st, vb)
+				}
+			}
+			vrt.SetOutcome(desc)
+			e.D.Close()
+		}}
+	}
+}
+
+// c05_grow: automatic checkpointing across a rebalance that ENLARGES this member's range (dynamic membership,
+// immediate re-open): events of the newly acquired vBuckets are acknowledged right after the re-open and never
+// again. Every periodic save that follows - including the last tick of the previous session's schedule, which
+// runs once more after that session was stopped - either stores them or leaves them flagged: 30 s later they
+// are in the store.
+func init() {
+	scenarios["c05_grow"] = func(raw json.RawMessage) *vrt.Scenario {
+		return &vrt.Scenario{Name: "c05_grow", FreeChoices: true, NoTimerAlt: true, MaxSteps: 2_000_000, Main: func() {
+			resetGlobals()
+			at := 2 + vrt.Choose(4, true, "seconds-into-the-interval") // when the group shrinks to this member
+			o := DcpOpts{}
+			o.Vbs = 4
+			o.CheckpointType = "auto"
+			o.MembershipType = "dynamic"
+			o.AutoAck = true
+			o.CheckpointInterval = 10 * time.Second
+			c := NewCluster(&o.EnvOpts)
+			for vb := uint16(0); vb < 4; vb++ {
+				c.Append(vb, marker(1, 2), mut(1, "a"), mut(2, "b"))
+			}
+			e := NewDcpEnv(c, o)
+			if e.Err != nil {
+				vrt.Failf("newDcp: %v", e.Err)
+				return
+			}
+			vrt.GoNamed("first-membership", func() {
+				vrt.Sleep(1)
+				e.bus().Publish(helpers.MembershipChangedBusEventName, &membership.Model{MemberNumber: 1, TotalMembers: 2})
+			})
+			e.Start()
+			vrt.Sleep(time.Duration(at) * time.Second)
+			e.bus().Publish(helpers.MembershipChangedBusEventName, &membership.Model{MemberNumber: 1, TotalMembers: 1})
+			vrt.Sleep(30 * time.Second)
+			vrt.Quiesce()
+			c.WaitIdle()
+			desc := fmt.Sprintf("member 1/2 becomes 1/1 %d s into the checkpoint interval (10 s); vb2 and vb3 are acquired, their two events acknowledged at once", at)
+			acked := maxAcked(e.Cons)
+			for vb := uint16(0); vb < 4; vb++ {
+				if acked[vb] != 2 {
+					vrt.Failf("harness: %s: vb%d acknowledged up to %d", desc, vb, acked[vb])
+					return
+				}
+				if st, _ := e.StoredSeq(vb); st != 2 {
+					vrt.Failf("%s: 30 s (three intervals) later the store holds %d for vb%d, acknowledged is 2", desc, st, vb)
 				}
 			}
 			vrt.SetOutcome(desc)
